@@ -206,9 +206,11 @@ func (e *Engine) box(st *State, v *Value, ifaceT types.Type) *Value {
 		// boxed slice: opaque reference
 		return &Value{T: ifaceT, Tm: ts.App("any_ref", SAny, tag, v.Sl.Ptr)}
 	case v.St != nil:
-		// boxed struct value: immutable copy at a fresh address
+		// boxed struct value: immutable copy at a fresh address, kept in heaps of its own ("box.")
 		addr := e.allocCells(st, ts.Int(1))
+		e.boxMode++
 		e.storeCell(st, "", addr, v.T, v)
+		e.boxMode--
 		return &Value{T: ifaceT, Tm: ts.App("any_ref", SAny, tag, addr)}
 	case v.Tm != nil:
 		switch v.Tm.Sort {
@@ -263,7 +265,10 @@ func (e *Engine) unbox(st *State, a *Term, t types.Type) *Value {
 	switch {
 	case k == kStruct:
 		addr := ts.App("any_raddr", SInt, a)
-		return e.loadCell(st, "", addr, t)
+		e.boxMode++
+		v := e.loadCell(st, "", addr, t)
+		e.boxMode--
+		return v
 	case k == kSlice:
 		panic(unsupported{"unboxing a slice"})
 	case s == SInt:
@@ -306,6 +311,9 @@ func (e *Engine) allocCells(st *State, n *Term) *Term {
 func (e *Engine) loadCell(st *State, key string, addr *Term, t types.Type) *Value {
 	ts := e.ts
 	k, s := e.classify(t)
+	if key != "" && e.curFx != nil && k != kStruct {
+		e.curFx.onFieldRead(st, key, addr)
+	}
 	switch k {
 	case kScalar, kArray:
 		if key == "" {
@@ -330,6 +338,9 @@ func (e *Engine) loadCell(st *State, key string, addr *Term, t types.Type) *Valu
 	case kStruct:
 		sty := structOf(t)
 		sn := e.structName(t)
+		if e.boxMode > 0 {
+			sn = "box." + sn
+		}
 		v := &Value{T: t, St: map[string]*Value{}}
 		for i := 0; i < sty.NumFields(); i++ {
 			f := sty.Field(i)
@@ -368,6 +379,9 @@ func (e *Engine) storeCell(st *State, key string, addr *Term, t types.Type, v *V
 	case kStruct:
 		sty := structOf(t)
 		sn := e.structName(t)
+		if e.boxMode > 0 {
+			sn = "box." + sn
+		}
 		if v.St == nil {
 			panic(unsupported{"store of non-struct into struct cell"})
 		}
@@ -399,6 +413,20 @@ type lval struct {
 	t     types.Type
 	blank bool
 	gvar  string // ghost variable name
+	raw   bool   // element of a slice of invariant-bearing structs (or reached through a raw pointer)
+	rawC  *Term  // condition under which the access is raw (nil = always)
+}
+
+// loadLval reads the location, honouring raw access.
+func (fx *fctx) loadLval(st *State, lv *lval) *Value {
+	saved, savedC := fx.rawAccess, fx.rawCond
+	if lv.raw {
+		fx.rawAccess = true
+		fx.rawCond = lv.rawC
+	}
+	v := fx.e.loadCell(st, lv.key, lv.addr, lv.t)
+	fx.rawAccess, fx.rawCond = saved, savedC
+	return v
 }
 
 func (fx *fctx) evalLval(st *State, x ast.Expr) *lval {
@@ -442,7 +470,7 @@ func (fx *fctx) evalLval(st *State, x ast.Expr) *lval {
 			sv := fx.eval(st, x.X)
 			idx := fx.evalInt(st, x.Index)
 			fx.check(st, "index", abbrev(e.exprStr(x)), e.ts.And(e.ts.Le(e.ts.Int(0), idx), e.ts.Lt(idx, sv.Sl.Len)), x, "index in range")
-			return &lval{addr: e.ts.Add(sv.Sl.Ptr, idx), t: u.Elem()}
+			return &lval{addr: e.ts.Add(sv.Sl.Ptr, idx), t: u.Elem(), raw: e.isRawElem(u.Elem())}
 		case *types.Array:
 			base := fx.evalLval(st, x.X)
 			idx := fx.evalInt(st, x.Index)
@@ -466,7 +494,7 @@ func (fx *fctx) evalLval(st *State, x ast.Expr) *lval {
 	case *ast.StarExpr:
 		p := fx.eval(st, x.X)
 		fx.check(st, "nil", abbrev(e.exprStr(x)), e.ts.Ne(p.Tm, e.ts.Int(0)), x, "nil pointer dereference")
-		return &lval{addr: p.Tm, t: p.T.Underlying().(*types.Pointer).Elem()}
+		return &lval{addr: p.Tm, t: p.T.Underlying().(*types.Pointer).Elem(), raw: p.Raw, rawC: p.RawC}
 	}
 	e.unsup(x, "unsupported lvalue %T", x)
 	return nil
@@ -484,6 +512,8 @@ func (fx *fctx) fieldLval(st *State, recv ast.Expr, sel *types.Selection, n ast.
 		cur := rt.Underlying().(*types.Pointer).Elem()
 		addr := p.Tm
 		key := ""
+		rawRecv := p.Raw
+		rawRecvC := p.RawC
 		for _, i := range idxs {
 			sty := structOf(cur)
 			if _, ok := cur.Underlying().(*types.Pointer); ok {
@@ -498,7 +528,7 @@ func (fx *fctx) fieldLval(st *State, recv ast.Expr, sel *types.Selection, n ast.
 			key = e.structName(cur) + "." + f.Name()
 			cur = f.Type()
 		}
-		return &lval{key: key, addr: addr, t: cur}
+		return &lval{key: key, addr: addr, t: cur, raw: rawRecv, rawC: rawRecvC}
 	}
 	base := fx.evalLval(st, recv)
 	cur := rt
@@ -511,7 +541,7 @@ func (fx *fctx) fieldLval(st *State, recv ast.Expr, sel *types.Selection, n ast.
 			key = e.structName(cur) + "." + f.Name()
 			cur = f.Type()
 		}
-		return &lval{key: key, addr: addr, t: cur}
+		return &lval{key: key, addr: addr, t: cur, raw: base.raw, rawC: base.rawC}
 	}
 	if base.v != nil && base.aidx == nil {
 		path := append([]string{}, base.path...)
@@ -534,7 +564,18 @@ func (fx *fctx) assign(st *State, lv *lval, v *Value, n ast.Node) {
 	}
 	v = fx.convertForAssign(st, v, lv.t)
 	if lv.addr != nil {
+		saved, savedC := fx.rawAccess, fx.rawCond
+		if lv.raw {
+			fx.rawAccess = true
+			fx.rawCond = lv.rawC
+		}
+		defer func() { fx.rawCond = savedC }()
+		// a raw pointer stored into the heap escapes
+		if !lv.raw || true {
+			fx.onEscape(st, v, n, "store")
+		}
 		e.storeCell(st, lv.key, lv.addr, lv.t, v)
+		fx.rawAccess = saved
 		return
 	}
 	cur := st.vars[lv.v]
@@ -624,7 +665,7 @@ func (fx *fctx) eval(st *State, x ast.Expr) *Value {
 	case *ast.StarExpr:
 		p := fx.eval(st, x.X)
 		fx.check(st, "nil", abbrev(e.exprStr(x)), ts.Ne(p.Tm, ts.Int(0)), x, "nil pointer dereference")
-		return e.loadCell(st, "", p.Tm, p.T.Underlying().(*types.Pointer).Elem())
+		return fx.loadLval(st, &lval{addr: p.Tm, t: p.T.Underlying().(*types.Pointer).Elem(), raw: p.Raw, rawC: p.RawC})
 	case *ast.SelectorExpr:
 		return fx.evalSelector(st, x)
 	case *ast.IndexExpr:
@@ -775,6 +816,12 @@ func (fx *fctx) wrap(t *Term, typ types.Type) *Term {
 func (fx *fctx) evalAddrOf(st *State, x *ast.UnaryExpr) *Value {
 	e := fx.e
 	t := e.P.Info.TypeOf(x)
+	if t == nil {
+		// synthesised &x (implicit address for a pointer-receiver call)
+		if ot := e.P.Info.TypeOf(x.X); ot != nil {
+			t = types.NewPointer(ot)
+		}
+	}
 	switch y := x.X.(type) {
 	case *ast.CompositeLit:
 		v := fx.evalComposite(st, y)
@@ -793,7 +840,7 @@ func (fx *fctx) evalAddrOf(st *State, x *ast.UnaryExpr) *Value {
 	case *ast.IndexExpr:
 		lv := fx.evalLval(st, y)
 		if lv.addr != nil && lv.key == "" {
-			return &Value{T: t, Tm: lv.addr}
+			return &Value{T: t, Tm: lv.addr, Raw: lv.raw}
 		}
 	case *ast.SelectorExpr:
 		lv := fx.evalLval(st, y)
@@ -836,7 +883,7 @@ func (fx *fctx) evalSelector(st *State, x *ast.SelectorExpr) *Value {
 		rt := e.P.Info.TypeOf(x.X)
 		if _, isPtr := rt.Underlying().(*types.Pointer); isPtr {
 			lv := fx.fieldLval(st, x.X, sel, x)
-			return e.loadCell(st, lv.key, lv.addr, lv.t)
+			return fx.loadLval(st, lv)
 		}
 		// struct value: evaluate and project
 		base := fx.eval(st, x.X)
@@ -881,8 +928,13 @@ func (fx *fctx) evalIndex(st *State, x *ast.IndexExpr) *Value {
 		sv := fx.eval(st, x.X)
 		idx := fx.evalInt(st, x.Index)
 		fx.check(st, "index", abbrev(e.exprStr(x)), ts.And(ts.Le(ts.Int(0), idx), ts.Lt(idx, sv.Sl.Len)), x, "index in range")
-		v := e.loadCell(st, "", ts.Add(sv.Sl.Ptr, idx), u.Elem())
+		v := fx.loadLval(st, &lval{addr: ts.Add(sv.Sl.Ptr, idx), t: u.Elem(), raw: e.isRawElem(u.Elem())})
 		fx.onRead(st, v, x)
+		if tab := fx.funcTableOf(x.X); tab != nil {
+			v = &Value{T: v.T, Tm: v.Tm, Table: &funcTable{Global: tab.Global, Idx: idx, Entries: tab.Entries}}
+			// every entry of the table is a declared function: the value is not nil
+			st.assume(ts.Ne(v.Tm, ts.Int(0)))
+		}
 		return v
 	case *types.Array:
 		av := fx.eval(st, x.X)
@@ -1036,4 +1088,52 @@ func (fx *fctx) evalElt(st *State, x ast.Expr, t types.Type) *Value {
 
 func (fx *fctx) onRead(st *State, v *Value, n ast.Node) {
 	fx.applyTypeInv(st, v, n)
+}
+
+// isRawElem: elements of slices of structs with a type invariant are "raw" (see typeinv.go).
+func (e *Engine) isRawElem(t types.Type) bool {
+	if _, ok := t.Underlying().(*types.Struct); !ok {
+		return false
+	}
+	return e.typeInvForType(t) != nil
+}
+
+// funcTableOf: x denotes a package-level slice that is never assigned after initialisation and whose
+// initialiser lists functions / method expressions.
+func (fx *fctx) funcTableOf(x ast.Expr) *funcTable {
+	e := fx.e
+	id, ok := x.(*ast.Ident)
+	if !ok {
+		return nil
+	}
+	v, ok := e.P.Info.Uses[id].(*types.Var)
+	if !ok || !fx.isGlobal(v) || e.effects == nil || e.effects.GlobalWritten[v] {
+		return nil
+	}
+	cl := e.globalsInit[v]
+	if cl == nil {
+		return nil
+	}
+	var entries []*types.Func
+	for _, el := range cl.Elts {
+		var fn *types.Func
+		switch f := el.(type) {
+		case *ast.Ident:
+			fn, _ = e.P.Info.Uses[f].(*types.Func)
+		case *ast.SelectorExpr:
+			if sel := e.P.Info.Selections[f]; sel != nil {
+				fn, _ = sel.Obj().(*types.Func)
+			} else {
+				fn, _ = e.P.Info.Uses[f.Sel].(*types.Func)
+			}
+		}
+		if fn == nil {
+			return nil
+		}
+		entries = append(entries, fn)
+	}
+	if len(entries) == 0 {
+		return nil
+	}
+	return &funcTable{Global: v, Entries: entries}
 }
